@@ -88,13 +88,29 @@ CONF_KEYS = [
 ]
 
 
+def _fast_state(obj, depth=0):
+    d = getattr(obj, "__dict__", None)
+    if d is None:
+        return compare.fast_fp(obj)
+    items = []
+    for k in sorted(d):
+        v = d[k]
+        mod = type(v).__module__ or ""
+        if depth < 1 and mod.startswith("autoarray") and hasattr(v, "__dict__") and not hasattr(v, "_array"):
+            items.append((k, _fast_state(v, depth + 1)))
+        else:
+            items.append((k, compare.fast_fp(v)))
+    return (type(obj).__name__, tuple(items))
+
+
 def globals_fingerprint():
-    """{label: digest} of every module-level default instance and of the configuration values the library reads."""
+    """{label: state} of every module-level default instance and of the configuration values the library reads (compared for
+    equality inside one process only)."""
     from . import boot
 
     out = {}
     for label, obj in default_instances():
-        out["default:" + label] = compare.digest(object_state_tree(obj))
+        out["default:" + label] = _fast_state(obj)
     for path in CONF_KEYS:
         try:
             v = boot.get_conf(list(path))
@@ -117,6 +133,7 @@ def hidden_state_fingerprint():
     global _hidden_sites
     if _hidden_sites is None:
         sites = []
+        classes = []
         for mname in sorted(sys.modules):
             if not (mname == "autoarray" or mname.startswith("autoarray.")):
                 continue
@@ -127,27 +144,24 @@ def hidden_state_fingerprint():
                 if name.startswith("__"):
                     continue
                 if isinstance(val, (dict, list, set)) or hasattr(val, "cache_info"):
-                    sites.append((f"{mname}.{name}", val))
+                    sites.append(val)
                 elif inspect.isclass(val) and val.__module__ == mname:
-                    sites.append((f"{mname}.{name}.<class dict>", val))
-        _hidden_sites = sites
+                    classes.append(val)
+                    for an, av in vars(val).items():
+                        if an.startswith("__"):
+                            continue
+                        if isinstance(av, (dict, list, set)) or hasattr(av, "cache_info"):
+                            sites.append(av)
+        _hidden_sites = (sites, classes)
+    sites, classes = _hidden_sites
     out = []
-    for label, val in _hidden_sites:
+    for val in sites:
         try:
-            if inspect.isclass(val):
-                for an, av in vars(val).items():
-                    if an.startswith("__"):
-                        continue
-                    if isinstance(av, (dict, list, set)):
-                        out.append((label + "." + an, len(av)))
-                    elif hasattr(av, "cache_info"):
-                        out.append((label + "." + an, av.cache_info().currsize))
-            elif hasattr(val, "cache_info"):
-                out.append((label, val.cache_info().currsize))
-            else:
-                out.append((label, len(val)))
+            out.append(val.cache_info().currsize if hasattr(val, "cache_info") else len(val))
         except Exception:  # noqa: BLE001
-            continue
+            out.append(-1)
+    # containers attached to a class later show up as a change in the number of class attributes
+    out.append(sum(len(vars(c)) for c in classes))
     return out
 
 
